@@ -145,3 +145,53 @@ func VHRandomStreams() {
 		}
 	}
 }
+
+// VHCrossProcess (C09, relational, across processes): a function table built from a seed and driven with some
+// calls gives the same results in another process -- one whose package-level state was initialised afresh and
+// whose environment (clock, global random source, hash seeds, process id) answers independently. Seed lengths
+// include those beyond 12 characters, where the seed's value as a radix-36 number no longer fits an int64.
+func VHCrossProcess() {
+	lens := []int{1, 2, 3, 12, 13, 14, 20}
+	seed := vString("seed", lens[vChoose("seedlen", vParam("SEEDLENS", 5))])
+	// every character is read by a branching digit/letter test: all but the last two are letters, so that the
+	// paths do not double per character (stated bound: long seeds are lowercase words ending in any two characters)
+	for i := 0; i+2 < len(seed); i++ {
+		vAssume('a' <= seed[i] && seed[i] <= 'z')
+	}
+	calls := vParam("CALLS", 1)
+	fn := vChoose("fn", 3)
+	// wide fixed ranges: a native replay compares real streams, which must not coincide by chance
+	n, a, b := 1000003, -1000003, 1000003
+	run := func() int64 {
+		fs := vNewFunctionStorer(seed)
+		last := int64(-1)
+		for i := 0; i < calls; i++ {
+			var v *variable.Value
+			var e error
+			switch fn {
+			case 0:
+				v, e = fs.call("dice", []*variable.Value{vNum(float64(n))})
+			case 1:
+				v, e = fs.call("random_range", []*variable.Value{vNum(float64(a)), vNum(float64(b))})
+			default:
+				v, e = fs.call("random", nil)
+			}
+			if e != nil || vKind(v) != 0 {
+				last = -2
+				continue
+			}
+			if fn == 2 {
+				last = int64(*v.Number * 4503599627370496) // 2^52: exact and injective on the generator's 53-bit grid up to one bit
+			} else if r, ok := vExactInt(*v.Number); ok {
+				last = int64(r)
+			} else {
+				last = -3
+			}
+		}
+		return last
+	}
+	here := run()
+	there := vOtherProcess("run", run)
+	vReach("compared")
+	vAssert(here == there, "same random results for the same seed and calls in another process")
+}
